@@ -1,0 +1,279 @@
+//go:build verif
+
+package bstree
+
+// Contracts for the deductive verifier in /verif (gvc). Comment-only; compiled only with -tags verif.
+//
+// Dynamic frames over the real nodes, carried as ghost maps: repr[m] is the set of nodes of the subtree rooted
+// at m, keys[m] its key set, vals[m] its key -> value map. comp(x, y) true sends x to the LEFT of y.
+
+//@ pred totalOrd(c gogu.CompFn) := c != nil && (forall a K :: !call(c, a, a)) && (forall a K, b K, e K :: call(c, a, b) && call(c, b, e) ==> call(c, a, e)) && (forall a K, b K :: { call(c, a, b) } call(c, a, b) || call(c, b, a) || a == b)
+//@ pred subset(a set[*Node], b set[*Node]) := forall x *Node :: { x in a } x in a ==> x in b
+//@ pred local(m *Node, c gogu.CompFn, repr map[*Node]set[*Node], keys map[*Node]set[K], vals map[*Node]map[K]V) := m in repr[m] && (m.Left != nil ==> m.Left in repr[m] && !(m in repr[m.Left])) && (m.Right != nil ==> m.Right in repr[m] && !(m in repr[m.Right])) && (m.Left != nil && m.Right != nil ==> forall x *Node :: { x in repr[m.Left] } !(x in repr[m.Left] && x in repr[m.Right])) && (forall x *Node :: { x in repr[m] } x in repr[m] <==> (x == m || (m.Left != nil && x in repr[m.Left]) || (m.Right != nil && x in repr[m.Right]))) && (forall k K :: { k in keys[m] } k in keys[m] <==> (k == m.Key || (m.Left != nil && k in keys[m.Left]) || (m.Right != nil && k in keys[m.Right]))) && (m.Left != nil ==> forall k K :: { k in keys[m.Left] } k in keys[m.Left] ==> call(c, k, m.Key) && vals[m][k] == vals[m.Left][k]) && (m.Right != nil ==> forall k K :: { k in keys[m.Right] } k in keys[m.Right] ==> call(c, m.Key, k) && vals[m][k] == vals[m.Right][k]) && vals[m][m.Key] == m.Val
+//@ pred valid(n *Node, c gogu.CompFn, repr map[*Node]set[*Node], keys map[*Node]set[K], vals map[*Node]map[K]V) := n != nil && n in repr[n] && !(nil in repr[n]) && forall m *Node :: { m in repr[n] } m in repr[n] ==> allocated(m) && local(m, c, repr, keys, vals) && subset(repr[m], repr[n]) && (forall o *Node :: { o in repr[m] } o in repr[m] ==> subset(repr[o], repr[m]))
+
+//@ func (*bstree.Node).get
+//@   property C04 C01
+//@   opt nil-receiver
+//@   lock b.mu : R
+//@   ghost-param repr map[*Node]set[*Node]
+//@   ghost-param keys map[*Node]set[K]
+//@   ghost-param vals map[*Node]map[K]V
+//@   requires b != nil && ErrorNotFound != nil && totalOrd(b.comp) && (n == nil || valid(n, b.comp, repr, keys, vals))
+//@   ensures result1 == nil <==> (n != nil && key in keys[n])
+//@   ensures result1 == nil ==> result0.Key == key && result0.Val == vals[n][key]
+//@   ensures result1 != nil ==> result1 == ErrorNotFound
+//@   call get#1 ghost repr = repr; keys = keys; vals = vals
+//@   call get#2 ghost repr = repr; keys = keys; vals = vals
+
+//@ pred frameOutside(n *Node, repr map[*Node]set[*Node], keys map[*Node]set[K], vals map[*Node]map[K]V, nrepr map[*Node]set[*Node], nkeys map[*Node]set[K], nvals map[*Node]map[K]V) := forall x *Node :: { x in repr[n] } !(x in repr[n]) && old(allocated(x)) ==> x.Left == old(x.Left) && x.Right == old(x.Right) && x.Val == old(x.Val) && nrepr[x] == repr[x] && nkeys[x] == keys[x] && nvals[x] == vals[x]
+
+//@ func (*bstree.Node).upsert
+//@   opt group-hyps
+//@   property C04 C01
+//@   lock b.mu : W
+//@   ghost-param repr map[*Node]set[*Node]
+//@   ghost-param keys map[*Node]set[K]
+//@   ghost-param vals map[*Node]map[K]V
+//@   ghost nrepr map[*Node]set[*Node] = repr
+//@   ghost nkeys map[*Node]set[K] = keys
+//@   ghost nvals map[*Node]map[K]V = vals
+//@   requires b != nil && totalOrd(b.comp) && valid(n, b.comp, repr, keys, vals)
+//@   modifies b.size, all bstree.Node.Left, all bstree.Node.Right, all bstree.Item.Val
+//@   ghost-at NewNode#1: nrepr[$ret] = lambda x *Node :: x == $ret
+//@   ghost-at NewNode#1: nkeys[$ret] = lambda k K :: k == key
+//@   ghost-at NewNode#1: nvals[$ret] = store(nvals[$ret], key, val)
+//@   ghost-at NewNode#2: nrepr[$ret] = lambda x *Node :: x == $ret
+//@   ghost-at NewNode#2: nkeys[$ret] = lambda k K :: k == key
+//@   ghost-at NewNode#2: nvals[$ret] = store(nvals[$ret], key, val)
+//@   exit-ghost nvals = store(nvals, n, lambda k K :: (k == n.Key ? n.Val : (n.Left != nil && k in nkeys[n.Left] ? nvals[n.Left][k] : nvals[n.Right][k])))
+//@   exit-ghost nrepr = store(nrepr, n, lambda x *Node :: (x == n || (n.Left != nil && x in nrepr[n.Left]) || (n.Right != nil && x in nrepr[n.Right])))
+//@   exit-ghost nkeys = store(nkeys, n, lambda k K :: (k == n.Key || (n.Left != nil && k in nkeys[n.Left]) || (n.Right != nil && k in nkeys[n.Right])))
+//@   assert n in nrepr[n] && !(nil in nrepr[n])
+//@   assert forall m *Node :: { m in nrepr[n] } m in nrepr[n] ==> allocated(m)
+//@   assert forall m *Node :: { m in nrepr[n] } m in nrepr[n] ==> subset(nrepr[m], nrepr[n])
+//@   assert !call(b.comp, key, n.Key) && !call(b.comp, n.Key, key) ==> (forall m *Node :: { m in nrepr[n] } m in nrepr[n] ==> (forall o *Node :: { o in nrepr[m] } o in nrepr[m] ==> subset(nrepr[o], nrepr[m])))
+//@   assert call(b.comp, key, n.Key) && old(n.Left) == nil ==> (forall m *Node :: { m in nrepr[n] } m in nrepr[n] ==> (forall o *Node :: { o in nrepr[m] } o in nrepr[m] ==> subset(nrepr[o], nrepr[m])))
+//@   assert call(b.comp, key, n.Key) && old(n.Left) != nil ==> (forall m *Node :: { m in nrepr[n] } m in nrepr[n] ==> (forall o *Node :: { o in nrepr[m] } o in nrepr[m] ==> subset(nrepr[o], nrepr[m])))
+//@   assert !call(b.comp, key, n.Key) && call(b.comp, n.Key, key) && old(n.Right) == nil ==> (forall m *Node :: { m in nrepr[n] } m in nrepr[n] ==> (forall o *Node :: { o in nrepr[m] } o in nrepr[m] ==> subset(nrepr[o], nrepr[m])))
+//@   assert !call(b.comp, key, n.Key) && call(b.comp, n.Key, key) && old(n.Right) != nil ==> (forall m *Node :: { m in nrepr[n] } m in nrepr[n] ==> (forall o *Node :: { o in nrepr[m] } o in nrepr[m] ==> subset(nrepr[o], nrepr[m])))
+//@   assert !call(b.comp, key, n.Key) && !call(b.comp, n.Key, key) ==> (forall m *Node :: { m in nrepr[n] } m in nrepr[n] && m != n ==> local(m, b.comp, nrepr, nkeys, nvals))
+//@   assert call(b.comp, key, n.Key) && old(n.Left) == nil ==> (forall m *Node :: { m in nrepr[n] } m in nrepr[n] && m != n ==> local(m, b.comp, nrepr, nkeys, nvals))
+//@   assert call(b.comp, key, n.Key) && old(n.Left) != nil ==> (forall m *Node :: { m in nrepr[n] } m in nrepr[n] && m != n ==> local(m, b.comp, nrepr, nkeys, nvals))
+//@   assert !call(b.comp, key, n.Key) && call(b.comp, n.Key, key) && old(n.Right) == nil ==> (forall m *Node :: { m in nrepr[n] } m in nrepr[n] && m != n ==> local(m, b.comp, nrepr, nkeys, nvals))
+//@   assert !call(b.comp, key, n.Key) && call(b.comp, n.Key, key) && old(n.Right) != nil ==> (forall m *Node :: { m in nrepr[n] } m in nrepr[n] && m != n ==> local(m, b.comp, nrepr, nkeys, nvals))
+//@   assert forall m *Node :: { m in nrepr[n] } m in nrepr[n] && m != n ==> local(m, b.comp, nrepr, nkeys, nvals)
+//@   assert !call(b.comp, key, n.Key) && !call(b.comp, n.Key, key) ==> (local(n, b.comp, nrepr, nkeys, nvals))
+//@   assert call(b.comp, key, n.Key) && old(n.Left) == nil ==> (local(n, b.comp, nrepr, nkeys, nvals))
+//@   assert call(b.comp, key, n.Key) && old(n.Left) != nil ==> (local(n, b.comp, nrepr, nkeys, nvals))
+//@   assert !call(b.comp, key, n.Key) && call(b.comp, n.Key, key) && old(n.Right) == nil ==> (local(n, b.comp, nrepr, nkeys, nvals))
+//@   assert !call(b.comp, key, n.Key) && call(b.comp, n.Key, key) && old(n.Right) != nil ==> (local(n, b.comp, nrepr, nkeys, nvals))
+//@   assert local(n, b.comp, nrepr, nkeys, nvals)
+//@   assert !call(b.comp, key, n.Key) && !call(b.comp, n.Key, key) ==> (subset(repr[n], nrepr[n]) && forall x *Node :: { x in nrepr[n] } x in nrepr[n] && !(x in repr[n]) ==> fresh(x) && x != nil)
+//@   assert call(b.comp, key, n.Key) && old(n.Left) == nil ==> (subset(repr[n], nrepr[n]) && forall x *Node :: { x in nrepr[n] } x in nrepr[n] && !(x in repr[n]) ==> fresh(x) && x != nil)
+//@   assert call(b.comp, key, n.Key) && old(n.Left) != nil ==> (subset(repr[n], nrepr[n]) && forall x *Node :: { x in nrepr[n] } x in nrepr[n] && !(x in repr[n]) ==> fresh(x) && x != nil)
+//@   assert !call(b.comp, key, n.Key) && call(b.comp, n.Key, key) && old(n.Right) == nil ==> (subset(repr[n], nrepr[n]) && forall x *Node :: { x in nrepr[n] } x in nrepr[n] && !(x in repr[n]) ==> fresh(x) && x != nil)
+//@   assert !call(b.comp, key, n.Key) && call(b.comp, n.Key, key) && old(n.Right) != nil ==> (subset(repr[n], nrepr[n]) && forall x *Node :: { x in nrepr[n] } x in nrepr[n] && !(x in repr[n]) ==> fresh(x) && x != nil)
+//@   assert !call(b.comp, key, n.Key) && !call(b.comp, n.Key, key) ==> (forall k K :: { k in nkeys[n] } k in nkeys[n] <==> (k in keys[n] || k == key))
+//@   assert call(b.comp, key, n.Key) && old(n.Left) == nil ==> (forall k K :: { k in nkeys[n] } k in nkeys[n] <==> (k in keys[n] || k == key))
+//@   assert call(b.comp, key, n.Key) && old(n.Left) != nil ==> (forall k K :: { k in nkeys[n] } k in nkeys[n] <==> (k in keys[n] || k == key))
+//@   assert !call(b.comp, key, n.Key) && call(b.comp, n.Key, key) && old(n.Right) == nil ==> (forall k K :: { k in nkeys[n] } k in nkeys[n] <==> (k in keys[n] || k == key))
+//@   assert !call(b.comp, key, n.Key) && call(b.comp, n.Key, key) && old(n.Right) != nil ==> (forall k K :: { k in nkeys[n] } k in nkeys[n] <==> (k in keys[n] || k == key))
+//@   assert !call(b.comp, key, n.Key) && !call(b.comp, n.Key, key) ==> (nvals[n][key] == val && forall k K :: { nvals[n][k] } k in keys[n] && k != key ==> nvals[n][k] == vals[n][k])
+//@   assert call(b.comp, key, n.Key) && old(n.Left) == nil ==> (nvals[n][key] == val && forall k K :: { nvals[n][k] } k in keys[n] && k != key ==> nvals[n][k] == vals[n][k])
+//@   assert call(b.comp, key, n.Key) && old(n.Left) != nil ==> (nvals[n][key] == val && forall k K :: { nvals[n][k] } k in keys[n] && k != key ==> nvals[n][k] == vals[n][k])
+//@   assert !call(b.comp, key, n.Key) && call(b.comp, n.Key, key) && old(n.Right) == nil ==> (nvals[n][key] == val && forall k K :: { nvals[n][k] } k in keys[n] && k != key ==> nvals[n][k] == vals[n][k])
+//@   assert !call(b.comp, key, n.Key) && call(b.comp, n.Key, key) && old(n.Right) != nil ==> (nvals[n][key] == val && forall k K :: { nvals[n][k] } k in keys[n] && k != key ==> nvals[n][k] == vals[n][k])
+//@   ensures valid(n, b.comp, nrepr, nkeys, nvals)
+//@   ensures forall k K :: { k in nkeys[n] } k in nkeys[n] <==> (k in keys[n] || k == key)
+//@   ensures nvals[n][key] == val && forall k K :: { nvals[n][k] } k in keys[n] && k != key ==> nvals[n][k] == vals[n][k]
+//@   ensures b.size == old(b.size) + (key in keys[n] ? 0 : 1)
+//@   ensures subset(repr[n], nrepr[n]) && forall x *Node :: { x in nrepr[n] } x in nrepr[n] && !(x in repr[n]) ==> fresh(x) && x != nil
+//@   ensures frameOutside(n, repr, keys, vals, nrepr, nkeys, nvals)
+//@   ensures forall x *Node :: { x.Key } old(allocated(x)) ==> x.Key == old(x.Key)
+//@   call upsert#1 ghost repr = repr; keys = keys; vals = vals
+//@   call upsert#2 ghost repr = repr; keys = keys; vals = vals
+
+//@ func bstree.NewNode
+//@   property C04
+//@   inline
+
+//@ func bstree.New
+//@   property C04 C01
+//@   ensures result != nil && fresh(result) && result.root == nil && result.size == 0 && result.comp == comp
+
+//@ func (*bstree.BsTree).Size
+//@   property C04 C01 C02
+//@   lock b.mu : none
+//@   ensures result == b.size
+
+//@ func (*bstree.BsTree).Get
+//@   property C04 C01 C02
+//@   lock b.mu : none
+//@   ghost-param repr map[*Node]set[*Node]
+//@   ghost-param keys map[*Node]set[K]
+//@   ghost-param vals map[*Node]map[K]V
+//@   requires ErrorNotFound != nil && totalOrd(b.comp) && (b.root == nil || valid(b.root, b.comp, repr, keys, vals))
+//@   ensures result1 == nil <==> (b.root != nil && key in keys[b.root])
+//@   ensures result1 == nil ==> result0.Key == key && result0.Val == vals[b.root][key]
+//@   ensures result1 != nil ==> result1 == ErrorNotFound
+//@   call get#1 ghost repr = repr; keys = keys; vals = vals
+
+//@ func (*bstree.BsTree).Upsert
+//@   property C04 C01 C02
+//@   lock b.mu : none
+//@   ghost-param repr map[*Node]set[*Node]
+//@   ghost-param keys map[*Node]set[K]
+//@   ghost-param vals map[*Node]map[K]V
+//@   ghost nrepr map[*Node]set[*Node] = repr
+//@   ghost nkeys map[*Node]set[K] = keys
+//@   ghost nvals map[*Node]map[K]V = vals
+//@   requires totalOrd(b.comp) && (b.root == nil || valid(b.root, b.comp, repr, keys, vals))
+//@   modifies b.root, b.size, all bstree.Node.Left, all bstree.Node.Right, all bstree.Item.Val
+//@   ghost-at NewNode#1: nrepr[$ret] = lambda x *Node :: x == $ret
+//@   ghost-at NewNode#1: nkeys[$ret] = lambda k K :: k == key
+//@   ghost-at NewNode#1: nvals[$ret] = store(nvals[$ret], key, val)
+//@   ensures b.root != nil && valid(b.root, b.comp, nrepr, nkeys, nvals)
+//@   ensures old(b.root) != nil ==> b.root == old(b.root)
+//@   ensures forall k K :: { k in nkeys[b.root] } k in nkeys[b.root] <==> ((old(b.root) != nil && k in keys[old(b.root)]) || k == key)
+//@   ensures nvals[b.root][key] == val && forall k K :: { nvals[b.root][k] } old(b.root) != nil && k in keys[old(b.root)] && k != key ==> nvals[b.root][k] == vals[old(b.root)][k]
+//@   ensures b.size == old(b.size) + ((old(b.root) != nil && key in keys[old(b.root)]) ? 0 : 1)
+//@   call upsert#1 ghost repr = repr; keys = keys; vals = vals
+
+//@ func (*bstree.Node).min
+//@   property C04 C01
+//@   ghost-param b *BsTree
+//@   ghost-param repr map[*Node]set[*Node]
+//@   ghost-param keys map[*Node]set[K]
+//@   ghost-param vals map[*Node]map[K]V
+//@   requires b != nil && totalOrd(b.comp) && valid(n, b.comp, repr, keys, vals)
+//@   ensures result != nil && result in repr[n] && result.Left == nil && result.Key in keys[n] && vals[n][result.Key] == result.Val
+//@   ensures forall k K :: { k in keys[n] } k in keys[n] ==> k == result.Key || call(b.comp, result.Key, k)
+//@ loop 1
+//@   invariant n != nil && n in repr[param(n)] && valid(n, b.comp, repr, keys, vals) && n.Key in keys[param(n)] && vals[param(n)][n.Key] == n.Val
+//@   invariant forall k K :: { k in keys[n] } k in keys[n] ==> k in keys[param(n)] && vals[param(n)][k] == vals[n][k]
+//@   invariant forall k K :: { k in keys[param(n)] } k in keys[param(n)] ==> k in keys[n] || call(b.comp, n.Key, k)
+
+//@ pred frameOutsideK(n *Node, repr map[*Node]set[*Node], keys map[*Node]set[K], vals map[*Node]map[K]V, nrepr map[*Node]set[*Node], nkeys map[*Node]set[K], nvals map[*Node]map[K]V) := forall x *Node :: { x in repr[n] } !(x in repr[n]) && old(allocated(x)) ==> x.Left == old(x.Left) && x.Right == old(x.Right) && x.Val == old(x.Val) && x.Key == old(x.Key) && nrepr[x] == repr[x] && nkeys[x] == keys[x] && nvals[x] == vals[x]
+
+//@ func (*bstree.Node).delete
+//@   property C04 C01
+//@   opt nil-receiver
+//@   opt group-hyps
+//@   lock b.mu : W
+//@   ghost-param repr map[*Node]set[*Node]
+//@   ghost-param keys map[*Node]set[K]
+//@   ghost-param vals map[*Node]map[K]V
+//@   ghost nrepr map[*Node]set[*Node] = repr
+//@   ghost nkeys map[*Node]set[K] = keys
+//@   ghost nvals map[*Node]map[K]V = vals
+//@   requires b != nil && ErrorNotFound != nil && totalOrd(b.comp) && (n == nil || valid(n, b.comp, repr, keys, vals))
+//@   modifies all bstree.Node.Left, all bstree.Node.Right, all bstree.Item.Val, all bstree.Item.Key
+//@   exit-ghost nvals = (n == nil ? nvals : store(nvals, n, lambda k K :: (k == n.Key ? n.Val : (n.Left != nil && k in nkeys[n.Left] ? nvals[n.Left][k] : nvals[n.Right][k]))))
+//@   exit-ghost nrepr = (n == nil ? nrepr : store(nrepr, n, lambda x *Node :: (x == n || (n.Left != nil && x in nrepr[n.Left]) || (n.Right != nil && x in nrepr[n.Right]))))
+//@   exit-ghost nkeys = (n == nil ? nkeys : store(nkeys, n, lambda k K :: (k == n.Key || (n.Left != nil && k in nkeys[n.Left]) || (n.Right != nil && k in nkeys[n.Right]))))
+//@   assert n != nil ==> old(n.Key) in keys[n] && (call(b.comp, key, old(n.Key)) || call(b.comp, old(n.Key), key) ==> key != old(n.Key))
+//@   assert n != nil && call(b.comp, key, old(n.Key)) && old(n.Left) == nil ==> (result0 != nil ==> result0 in repr[n] && subset(nrepr[result0], repr[n]) && !(nil in nrepr[result0]) && result0 in nrepr[result0])
+//@   assert n != nil && call(b.comp, key, old(n.Key)) && old(n.Left) != nil ==> (result0 != nil ==> result0 in repr[n] && subset(nrepr[result0], repr[n]) && !(nil in nrepr[result0]) && result0 in nrepr[result0])
+//@   assert n != nil && call(b.comp, key, old(n.Key)) ==> (result0 != nil ==> result0 in repr[n] && subset(nrepr[result0], repr[n]) && !(nil in nrepr[result0]) && result0 in nrepr[result0])
+//@   assert n != nil && !call(b.comp, key, old(n.Key)) && call(b.comp, old(n.Key), key) && old(n.Right) == nil ==> (result0 != nil ==> result0 in repr[n] && subset(nrepr[result0], repr[n]) && !(nil in nrepr[result0]) && result0 in nrepr[result0])
+//@   assert n != nil && !call(b.comp, key, old(n.Key)) && call(b.comp, old(n.Key), key) && old(n.Right) != nil ==> (result0 != nil ==> result0 in repr[n] && subset(nrepr[result0], repr[n]) && !(nil in nrepr[result0]) && result0 in nrepr[result0])
+//@   assert n != nil && !call(b.comp, key, old(n.Key)) && call(b.comp, old(n.Key), key) ==> (result0 != nil ==> result0 in repr[n] && subset(nrepr[result0], repr[n]) && !(nil in nrepr[result0]) && result0 in nrepr[result0])
+//@   assert n != nil && !call(b.comp, key, old(n.Key)) && !call(b.comp, old(n.Key), key) && old(n.Left) == nil && old(n.Right) == nil ==> (result0 != nil ==> result0 in repr[n] && subset(nrepr[result0], repr[n]) && !(nil in nrepr[result0]) && result0 in nrepr[result0])
+//@   assert n != nil && !call(b.comp, key, old(n.Key)) && !call(b.comp, old(n.Key), key) && old(n.Left) != nil && old(n.Right) == nil ==> (result0 != nil ==> result0 in repr[n] && subset(nrepr[result0], repr[n]) && !(nil in nrepr[result0]) && result0 in nrepr[result0])
+//@   assert n != nil && !call(b.comp, key, old(n.Key)) && !call(b.comp, old(n.Key), key) && old(n.Left) == nil && old(n.Right) != nil ==> (result0 != nil ==> result0 in repr[n] && subset(nrepr[result0], repr[n]) && !(nil in nrepr[result0]) && result0 in nrepr[result0])
+//@   assert n != nil && !call(b.comp, key, old(n.Key)) && !call(b.comp, old(n.Key), key) && old(n.Left) != nil && old(n.Right) != nil ==> (result0 != nil ==> result0 in repr[n] && subset(nrepr[result0], repr[n]) && !(nil in nrepr[result0]) && result0 in nrepr[result0])
+//@   assert n != nil ==> (result0 != nil ==> result0 in repr[n] && subset(nrepr[result0], repr[n]) && !(nil in nrepr[result0]) && result0 in nrepr[result0])
+//@   assert n != nil && call(b.comp, key, old(n.Key)) && old(n.Left) == nil ==> (result0 != nil ==> (forall k K :: { k in nkeys[result0] } k in nkeys[result0] <==> (k in keys[n] && k != key)))
+//@   assert n != nil && call(b.comp, key, old(n.Key)) && old(n.Left) != nil ==> (result0 != nil ==> (forall k K :: { k in nkeys[result0] } k in nkeys[result0] <==> (k in keys[n] && k != key)))
+//@   assert n != nil && call(b.comp, key, old(n.Key)) ==> (result0 != nil ==> (forall k K :: { k in nkeys[result0] } k in nkeys[result0] <==> (k in keys[n] && k != key)))
+//@   assert n != nil && !call(b.comp, key, old(n.Key)) && call(b.comp, old(n.Key), key) && old(n.Right) == nil ==> (result0 != nil ==> (forall k K :: { k in nkeys[result0] } k in nkeys[result0] <==> (k in keys[n] && k != key)))
+//@   assert n != nil && !call(b.comp, key, old(n.Key)) && call(b.comp, old(n.Key), key) && old(n.Right) != nil ==> (result0 != nil ==> (forall k K :: { k in nkeys[result0] } k in nkeys[result0] <==> (k in keys[n] && k != key)))
+//@   assert n != nil && !call(b.comp, key, old(n.Key)) && call(b.comp, old(n.Key), key) ==> (result0 != nil ==> (forall k K :: { k in nkeys[result0] } k in nkeys[result0] <==> (k in keys[n] && k != key)))
+//@   assert n != nil && !call(b.comp, key, old(n.Key)) && !call(b.comp, old(n.Key), key) && old(n.Left) == nil && old(n.Right) == nil ==> (result0 != nil ==> (forall k K :: { k in nkeys[result0] } k in nkeys[result0] <==> (k in keys[n] && k != key)))
+//@   assert n != nil && !call(b.comp, key, old(n.Key)) && !call(b.comp, old(n.Key), key) && old(n.Left) != nil && old(n.Right) == nil ==> (result0 != nil ==> (forall k K :: { k in nkeys[result0] } k in nkeys[result0] <==> (k in keys[n] && k != key)))
+//@   assert n != nil && !call(b.comp, key, old(n.Key)) && !call(b.comp, old(n.Key), key) && old(n.Left) == nil && old(n.Right) != nil ==> (result0 != nil ==> (forall k K :: { k in nkeys[result0] } k in nkeys[result0] <==> (k in keys[n] && k != key)))
+//@   assert n != nil && !call(b.comp, key, old(n.Key)) && !call(b.comp, old(n.Key), key) && old(n.Left) != nil && old(n.Right) != nil ==> (result0 != nil ==> (forall k K :: { k in nkeys[result0] } k in nkeys[result0] <==> (k in keys[n] && k != key)))
+//@   assert n != nil ==> (result0 != nil ==> (forall k K :: { k in nkeys[result0] } k in nkeys[result0] <==> (k in keys[n] && k != key)))
+//@   assert n != nil && call(b.comp, key, old(n.Key)) && old(n.Left) == nil ==> (result0 != nil ==> (forall k K :: { nvals[result0][k] } k in nkeys[result0] ==> nvals[result0][k] == vals[n][k]))
+//@   assert n != nil && call(b.comp, key, old(n.Key)) && old(n.Left) != nil ==> (result0 != nil ==> (forall k K :: { nvals[result0][k] } k in nkeys[result0] ==> nvals[result0][k] == vals[n][k]))
+//@   assert n != nil && call(b.comp, key, old(n.Key)) ==> (result0 != nil ==> (forall k K :: { nvals[result0][k] } k in nkeys[result0] ==> nvals[result0][k] == vals[n][k]))
+//@   assert n != nil && !call(b.comp, key, old(n.Key)) && call(b.comp, old(n.Key), key) && old(n.Right) == nil ==> (result0 != nil ==> (forall k K :: { nvals[result0][k] } k in nkeys[result0] ==> nvals[result0][k] == vals[n][k]))
+//@   assert n != nil && !call(b.comp, key, old(n.Key)) && call(b.comp, old(n.Key), key) && old(n.Right) != nil ==> (result0 != nil ==> (forall k K :: { nvals[result0][k] } k in nkeys[result0] ==> nvals[result0][k] == vals[n][k]))
+//@   assert n != nil && !call(b.comp, key, old(n.Key)) && call(b.comp, old(n.Key), key) ==> (result0 != nil ==> (forall k K :: { nvals[result0][k] } k in nkeys[result0] ==> nvals[result0][k] == vals[n][k]))
+//@   assert n != nil && !call(b.comp, key, old(n.Key)) && !call(b.comp, old(n.Key), key) && old(n.Left) == nil && old(n.Right) == nil ==> (result0 != nil ==> (forall k K :: { nvals[result0][k] } k in nkeys[result0] ==> nvals[result0][k] == vals[n][k]))
+//@   assert n != nil && !call(b.comp, key, old(n.Key)) && !call(b.comp, old(n.Key), key) && old(n.Left) != nil && old(n.Right) == nil ==> (result0 != nil ==> (forall k K :: { nvals[result0][k] } k in nkeys[result0] ==> nvals[result0][k] == vals[n][k]))
+//@   assert n != nil && !call(b.comp, key, old(n.Key)) && !call(b.comp, old(n.Key), key) && old(n.Left) == nil && old(n.Right) != nil ==> (result0 != nil ==> (forall k K :: { nvals[result0][k] } k in nkeys[result0] ==> nvals[result0][k] == vals[n][k]))
+//@   assert n != nil && !call(b.comp, key, old(n.Key)) && !call(b.comp, old(n.Key), key) && old(n.Left) != nil && old(n.Right) != nil ==> (result0 != nil ==> (forall k K :: { nvals[result0][k] } k in nkeys[result0] ==> nvals[result0][k] == vals[n][k]))
+//@   assert n != nil ==> (result0 != nil ==> (forall k K :: { nvals[result0][k] } k in nkeys[result0] ==> nvals[result0][k] == vals[n][k]))
+//@   assert n != nil && call(b.comp, key, old(n.Key)) && old(n.Left) == nil ==> (result0 != nil ==> (forall m *Node :: { m in nrepr[result0] } m in nrepr[result0] ==> allocated(m) && subset(nrepr[m], nrepr[result0]) && (forall o *Node :: { o in nrepr[m] } o in nrepr[m] ==> subset(nrepr[o], nrepr[m]))))
+//@   assert n != nil && call(b.comp, key, old(n.Key)) && old(n.Left) != nil ==> (result0 != nil ==> (forall m *Node :: { m in nrepr[result0] } m in nrepr[result0] ==> allocated(m) && subset(nrepr[m], nrepr[result0]) && (forall o *Node :: { o in nrepr[m] } o in nrepr[m] ==> subset(nrepr[o], nrepr[m]))))
+//@   assert n != nil && call(b.comp, key, old(n.Key)) ==> (result0 != nil ==> (forall m *Node :: { m in nrepr[result0] } m in nrepr[result0] ==> allocated(m) && subset(nrepr[m], nrepr[result0]) && (forall o *Node :: { o in nrepr[m] } o in nrepr[m] ==> subset(nrepr[o], nrepr[m]))))
+//@   assert n != nil && !call(b.comp, key, old(n.Key)) && call(b.comp, old(n.Key), key) && old(n.Right) == nil ==> (result0 != nil ==> (forall m *Node :: { m in nrepr[result0] } m in nrepr[result0] ==> allocated(m) && subset(nrepr[m], nrepr[result0]) && (forall o *Node :: { o in nrepr[m] } o in nrepr[m] ==> subset(nrepr[o], nrepr[m]))))
+//@   assert n != nil && !call(b.comp, key, old(n.Key)) && call(b.comp, old(n.Key), key) && old(n.Right) != nil ==> (result0 != nil ==> (forall m *Node :: { m in nrepr[result0] } m in nrepr[result0] ==> allocated(m) && subset(nrepr[m], nrepr[result0]) && (forall o *Node :: { o in nrepr[m] } o in nrepr[m] ==> subset(nrepr[o], nrepr[m]))))
+//@   assert n != nil && !call(b.comp, key, old(n.Key)) && call(b.comp, old(n.Key), key) ==> (result0 != nil ==> (forall m *Node :: { m in nrepr[result0] } m in nrepr[result0] ==> allocated(m) && subset(nrepr[m], nrepr[result0]) && (forall o *Node :: { o in nrepr[m] } o in nrepr[m] ==> subset(nrepr[o], nrepr[m]))))
+//@   assert n != nil && !call(b.comp, key, old(n.Key)) && !call(b.comp, old(n.Key), key) && old(n.Left) == nil && old(n.Right) == nil ==> (result0 != nil ==> (forall m *Node :: { m in nrepr[result0] } m in nrepr[result0] ==> allocated(m) && subset(nrepr[m], nrepr[result0]) && (forall o *Node :: { o in nrepr[m] } o in nrepr[m] ==> subset(nrepr[o], nrepr[m]))))
+//@   assert n != nil && !call(b.comp, key, old(n.Key)) && !call(b.comp, old(n.Key), key) && old(n.Left) != nil && old(n.Right) == nil ==> (result0 != nil ==> (forall m *Node :: { m in nrepr[result0] } m in nrepr[result0] ==> allocated(m) && subset(nrepr[m], nrepr[result0]) && (forall o *Node :: { o in nrepr[m] } o in nrepr[m] ==> subset(nrepr[o], nrepr[m]))))
+//@   assert n != nil && !call(b.comp, key, old(n.Key)) && !call(b.comp, old(n.Key), key) && old(n.Left) == nil && old(n.Right) != nil ==> (result0 != nil ==> (forall m *Node :: { m in nrepr[result0] } m in nrepr[result0] ==> allocated(m) && subset(nrepr[m], nrepr[result0]) && (forall o *Node :: { o in nrepr[m] } o in nrepr[m] ==> subset(nrepr[o], nrepr[m]))))
+//@   assert n != nil && !call(b.comp, key, old(n.Key)) && !call(b.comp, old(n.Key), key) && old(n.Left) != nil && old(n.Right) != nil ==> (result0 != nil ==> (forall m *Node :: { m in nrepr[result0] } m in nrepr[result0] ==> allocated(m) && subset(nrepr[m], nrepr[result0]) && (forall o *Node :: { o in nrepr[m] } o in nrepr[m] ==> subset(nrepr[o], nrepr[m]))))
+//@   assert n != nil ==> (result0 != nil ==> (forall m *Node :: { m in nrepr[result0] } m in nrepr[result0] ==> allocated(m) && subset(nrepr[m], nrepr[result0]) && (forall o *Node :: { o in nrepr[m] } o in nrepr[m] ==> subset(nrepr[o], nrepr[m]))))
+//@   assert n != nil && call(b.comp, key, old(n.Key)) && old(n.Left) == nil ==> (result0 != nil ==> (forall m *Node :: { m in nrepr[result0] } m in nrepr[result0] ==> local(m, b.comp, nrepr, nkeys, nvals)))
+//@   assert n != nil && call(b.comp, key, old(n.Key)) && old(n.Left) != nil ==> (result0 != nil ==> (forall m *Node :: { m in nrepr[result0] } m in nrepr[result0] ==> local(m, b.comp, nrepr, nkeys, nvals)))
+//@   assert n != nil && call(b.comp, key, old(n.Key)) ==> (result0 != nil ==> (forall m *Node :: { m in nrepr[result0] } m in nrepr[result0] ==> local(m, b.comp, nrepr, nkeys, nvals)))
+//@   assert n != nil && !call(b.comp, key, old(n.Key)) && call(b.comp, old(n.Key), key) && old(n.Right) == nil ==> (result0 != nil ==> (forall m *Node :: { m in nrepr[result0] } m in nrepr[result0] ==> local(m, b.comp, nrepr, nkeys, nvals)))
+//@   assert n != nil && !call(b.comp, key, old(n.Key)) && call(b.comp, old(n.Key), key) && old(n.Right) != nil ==> (result0 != nil ==> (forall m *Node :: { m in nrepr[result0] } m in nrepr[result0] ==> local(m, b.comp, nrepr, nkeys, nvals)))
+//@   assert n != nil && !call(b.comp, key, old(n.Key)) && call(b.comp, old(n.Key), key) ==> (result0 != nil ==> (forall m *Node :: { m in nrepr[result0] } m in nrepr[result0] ==> local(m, b.comp, nrepr, nkeys, nvals)))
+//@   assert n != nil && !call(b.comp, key, old(n.Key)) && !call(b.comp, old(n.Key), key) && old(n.Left) == nil && old(n.Right) == nil ==> (result0 != nil ==> (forall m *Node :: { m in nrepr[result0] } m in nrepr[result0] ==> local(m, b.comp, nrepr, nkeys, nvals)))
+//@   assert n != nil && !call(b.comp, key, old(n.Key)) && !call(b.comp, old(n.Key), key) && old(n.Left) != nil && old(n.Right) == nil ==> (result0 != nil ==> (forall m *Node :: { m in nrepr[result0] } m in nrepr[result0] ==> local(m, b.comp, nrepr, nkeys, nvals)))
+//@   assert n != nil && !call(b.comp, key, old(n.Key)) && !call(b.comp, old(n.Key), key) && old(n.Left) == nil && old(n.Right) != nil ==> (result0 != nil ==> (forall m *Node :: { m in nrepr[result0] } m in nrepr[result0] ==> local(m, b.comp, nrepr, nkeys, nvals)))
+//@   assert n != nil && !call(b.comp, key, old(n.Key)) && !call(b.comp, old(n.Key), key) && old(n.Left) != nil && old(n.Right) != nil ==> (result0 != nil ==> (forall m *Node :: { m in nrepr[result0] } m in nrepr[result0] ==> local(m, b.comp, nrepr, nkeys, nvals)))
+//@   assert n != nil ==> (result0 != nil ==> (forall m *Node :: { m in nrepr[result0] } m in nrepr[result0] ==> local(m, b.comp, nrepr, nkeys, nvals)))
+//@   assert n != nil && call(b.comp, key, old(n.Key)) && old(n.Left) == nil ==> ((result1 == nil <==> key in keys[n]) && (result0 == nil <==> (forall k K :: { k in keys[n] } k in keys[n] ==> k == key)))
+//@   assert n != nil && call(b.comp, key, old(n.Key)) && old(n.Left) != nil ==> ((result1 == nil <==> key in keys[n]) && (result0 == nil <==> (forall k K :: { k in keys[n] } k in keys[n] ==> k == key)))
+//@   assert n != nil && call(b.comp, key, old(n.Key)) ==> ((result1 == nil <==> key in keys[n]) && (result0 == nil <==> (forall k K :: { k in keys[n] } k in keys[n] ==> k == key)))
+//@   assert n != nil && !call(b.comp, key, old(n.Key)) && call(b.comp, old(n.Key), key) && old(n.Right) == nil ==> ((result1 == nil <==> key in keys[n]) && (result0 == nil <==> (forall k K :: { k in keys[n] } k in keys[n] ==> k == key)))
+//@   assert n != nil && !call(b.comp, key, old(n.Key)) && call(b.comp, old(n.Key), key) && old(n.Right) != nil ==> ((result1 == nil <==> key in keys[n]) && (result0 == nil <==> (forall k K :: { k in keys[n] } k in keys[n] ==> k == key)))
+//@   assert n != nil && !call(b.comp, key, old(n.Key)) && call(b.comp, old(n.Key), key) ==> ((result1 == nil <==> key in keys[n]) && (result0 == nil <==> (forall k K :: { k in keys[n] } k in keys[n] ==> k == key)))
+//@   assert n != nil && !call(b.comp, key, old(n.Key)) && !call(b.comp, old(n.Key), key) && old(n.Left) == nil && old(n.Right) == nil ==> ((result1 == nil <==> key in keys[n]) && (result0 == nil <==> (forall k K :: { k in keys[n] } k in keys[n] ==> k == key)))
+//@   assert n != nil && !call(b.comp, key, old(n.Key)) && !call(b.comp, old(n.Key), key) && old(n.Left) != nil && old(n.Right) == nil ==> ((result1 == nil <==> key in keys[n]) && (result0 == nil <==> (forall k K :: { k in keys[n] } k in keys[n] ==> k == key)))
+//@   assert n != nil && !call(b.comp, key, old(n.Key)) && !call(b.comp, old(n.Key), key) && old(n.Left) == nil && old(n.Right) != nil ==> ((result1 == nil <==> key in keys[n]) && (result0 == nil <==> (forall k K :: { k in keys[n] } k in keys[n] ==> k == key)))
+//@   assert n != nil && !call(b.comp, key, old(n.Key)) && !call(b.comp, old(n.Key), key) && old(n.Left) != nil && old(n.Right) != nil ==> ((result1 == nil <==> key in keys[n]) && (result0 == nil <==> (forall k K :: { k in keys[n] } k in keys[n] ==> k == key)))
+//@   assert n != nil ==> ((result1 == nil <==> key in keys[n]) && (result0 == nil <==> (forall k K :: { k in keys[n] } k in keys[n] ==> k == key)))
+//@   assert n != nil && call(b.comp, key, old(n.Key)) && old(n.Left) == nil ==> (frameOutsideK(n, repr, keys, vals, nrepr, nkeys, nvals))
+//@   assert n != nil && call(b.comp, key, old(n.Key)) && old(n.Left) != nil ==> (frameOutsideK(n, repr, keys, vals, nrepr, nkeys, nvals))
+//@   assert n != nil && call(b.comp, key, old(n.Key)) ==> (frameOutsideK(n, repr, keys, vals, nrepr, nkeys, nvals))
+//@   assert n != nil && !call(b.comp, key, old(n.Key)) && call(b.comp, old(n.Key), key) && old(n.Right) == nil ==> (frameOutsideK(n, repr, keys, vals, nrepr, nkeys, nvals))
+//@   assert n != nil && !call(b.comp, key, old(n.Key)) && call(b.comp, old(n.Key), key) && old(n.Right) != nil ==> (frameOutsideK(n, repr, keys, vals, nrepr, nkeys, nvals))
+//@   assert n != nil && !call(b.comp, key, old(n.Key)) && call(b.comp, old(n.Key), key) ==> (frameOutsideK(n, repr, keys, vals, nrepr, nkeys, nvals))
+//@   assert n != nil && !call(b.comp, key, old(n.Key)) && !call(b.comp, old(n.Key), key) && old(n.Left) == nil && old(n.Right) == nil ==> (frameOutsideK(n, repr, keys, vals, nrepr, nkeys, nvals))
+//@   assert n != nil && !call(b.comp, key, old(n.Key)) && !call(b.comp, old(n.Key), key) && old(n.Left) != nil && old(n.Right) == nil ==> (frameOutsideK(n, repr, keys, vals, nrepr, nkeys, nvals))
+//@   assert n != nil && !call(b.comp, key, old(n.Key)) && !call(b.comp, old(n.Key), key) && old(n.Left) == nil && old(n.Right) != nil ==> (frameOutsideK(n, repr, keys, vals, nrepr, nkeys, nvals))
+//@   assert n != nil && !call(b.comp, key, old(n.Key)) && !call(b.comp, old(n.Key), key) && old(n.Left) != nil && old(n.Right) != nil ==> (frameOutsideK(n, repr, keys, vals, nrepr, nkeys, nvals))
+//@   assert n != nil ==> (frameOutsideK(n, repr, keys, vals, nrepr, nkeys, nvals))
+//@   ensures n == nil ==> result0 == nil && result1 == ErrorNotFound && nrepr == repr && nkeys == keys && nvals == vals && (forall x *Node :: { x.Left } { x.Right } { x.Key } { x.Val } x.Left == old(x.Left) && x.Right == old(x.Right) && x.Val == old(x.Val) && x.Key == old(x.Key))
+//@   ensures n != nil ==> (result1 == nil <==> key in keys[n]) && (result1 != nil ==> result1 == ErrorNotFound) && (result0 == nil <==> (forall k K :: { k in keys[n] } k in keys[n] ==> k == key))
+//@   ensures n != nil && result0 != nil ==> valid(result0, b.comp, nrepr, nkeys, nvals) && result0 in repr[n] && subset(nrepr[result0], repr[n])
+//@   ensures n != nil && result0 != nil ==> (forall k K :: { k in nkeys[result0] } k in nkeys[result0] <==> (k in keys[n] && k != key)) && (forall k K :: { nvals[result0][k] } k in nkeys[result0] ==> nvals[result0][k] == vals[n][k])
+//@   ensures n != nil ==> frameOutsideK(n, repr, keys, vals, nrepr, nkeys, nvals)
+//@   call delete#1 ghost repr = repr; keys = keys; vals = vals
+//@   call delete#2 ghost repr = repr; keys = keys; vals = vals
+//@   call delete#3 ghost repr = repr; keys = keys; vals = vals
+//@   call min#1 ghost b = b; repr = repr; keys = keys; vals = vals
+
+//@ func (*bstree.BsTree).Delete
+//@   property C04 C01 C02
+//@   lock b.mu : none
+//@   ghost-param repr map[*Node]set[*Node]
+//@   ghost-param keys map[*Node]set[K]
+//@   ghost-param vals map[*Node]map[K]V
+//@   ghost nrepr map[*Node]set[*Node] = repr
+//@   ghost nkeys map[*Node]set[K] = keys
+//@   ghost nvals map[*Node]map[K]V = vals
+//@   requires ErrorNotFound != nil && totalOrd(b.comp) && (b.root == nil || valid(b.root, b.comp, repr, keys, vals))
+//@   modifies b.root, b.size, all bstree.Node.Left, all bstree.Node.Right, all bstree.Item.Val, all bstree.Item.Key
+//@   ensures result == nil <==> (old(b.root) != nil && key in keys[old(b.root)])
+//@   ensures result != nil ==> result == ErrorNotFound
+//@   ensures b.root == nil <==> (old(b.root) == nil || (forall k K :: { k in keys[old(b.root)] } k in keys[old(b.root)] ==> k == key))
+//@   ensures b.root != nil ==> valid(b.root, b.comp, nrepr, nkeys, nvals) && (forall k K :: { k in nkeys[b.root] } k in nkeys[b.root] <==> (k in keys[old(b.root)] && k != key)) && (forall k K :: { nvals[b.root][k] } k in nkeys[b.root] ==> nvals[b.root][k] == vals[old(b.root)][k])
+//@   ensures b.size == old(b.size) - ((old(b.root) != nil && key in keys[old(b.root)]) ? 1 : 0)
+//@   call delete#1 ghost repr = repr; keys = keys; vals = vals
